@@ -135,7 +135,8 @@ class Ctor(Stream):
                 cs.append({"args": {"name": nm, "psi": psi}, "mand": mand, "opt": opt})
             reqtype = rng.choice([1, 1, 2, 3, 4])
             dnn = rng.choice(["internet", "internet", "ims", "a.b", "mnc093.mcc208.gprs", ""]) if self.dev else rng.choice(["internet", "internet", "ims", "x", ""])
-            sst, sd = rng.choice([1, 1, 2, 255]), rng.bytes(3)
+            # slice differentiators that look reserved are legal values too (000000, ffffff; ffffff means "no SD" only in NGAP)
+            sst, sd = rng.choice([1, 1, 2, 255, 0]), rng.choice([rng.bytes(3), rng.bytes(3), bytes(3), b"\xff\xff\xff", b"\x00\x00\x01", b"\x01\x00\x00"])
             for outer, innm, with_rt in (("GetUlNasTransport_PduSessionEstablishmentRequest", "GetPduSessionEstablishmentRequest", True),
                                          ("GetUlNasTransport_PduSessionModificationRequest", "GetPduSessionModificationRequest", True),
                                          ("GetUlNasTransport_PduSessionReleaseComplete", "GetPduSessionReleaseComplete", True),
